@@ -86,7 +86,7 @@ class _Progress:
         self.length_attrs = self._length_attrs()
         self.accessors = self._accessors()  # name -> "none" | "empty"
         self.end_methods: Dict[str, str] = self._end_methods()  # name -> "IFF+" / "IFF-"
-        self.writes = {n for n, m in self.methods.items() if any(self._cursor_write(x) for x in m.own_nodes())}
+        self.writes = {n for n, m in self.methods.items() if any(self._cursor_write(x, m) for x in m.own_nodes())}
         self.may_consume = self._closure(self.writes)
         self.unbalanced = {n for n, m in self.methods.items() if n not in ("__init__",) and self._has_unbalanced_rollback(m)}
         self.may_rollback = self._closure(self.unbalanced)
@@ -178,12 +178,29 @@ class _Progress:
                     out[name] = k
         return out
 
-    def _cursor_write(self, x: ast.AST) -> bool:
-        if isinstance(x, ast.AugAssign):
-            return norm(x.target) in self.cursors
-        if isinstance(x, ast.Assign):
-            return any(norm(t) in self.cursors for t in x.targets)
-        return False
+    @staticmethod
+    def _flat_targets(x: ast.AST) -> List[ast.AST]:
+        tg = x.targets if isinstance(x, ast.Assign) else ([x.target] if isinstance(x, (ast.AugAssign, ast.AnnAssign)) else [])
+        out: List[ast.AST] = []
+        for t in tg:
+            out += list(t.elts) if isinstance(t, (ast.Tuple, ast.List)) else [t]
+        return out
+
+    def _cn(self, e: ast.AST, m: Optional[Func]) -> str:
+        """Normalised text of e with one-step local aliases of self attributes expanded (lexer = self.lexer)."""
+        txt = norm(e)
+        if m is None or isinstance(m.node, ast.Lambda):
+            return txt
+        head = txt.split(".")[0]
+        if head != "self" and "." in txt:
+            defs = [n.value for n in m.own_nodes() if isinstance(n, ast.Assign) and len(n.targets) == 1 and isinstance(n.targets[0], ast.Name) and n.targets[0].id == head]
+            if len(defs) == 1 and norm(defs[0]).startswith("self."):
+                return norm(defs[0]) + txt[len(head):]
+        return txt
+
+    def _cursor_write(self, x: ast.AST, m: Optional[Func] = None) -> bool:
+        m = m or self._cur
+        return any(self._cn(t, m) in self.cursors for t in self._flat_targets(x))
 
     def _forward_step(self, x: ast.AST) -> bool:
         if isinstance(x, ast.AugAssign) and isinstance(x.op, ast.Add) and norm(x.target) == "self.pos" and isinstance(x.value, ast.Constant) and isinstance(x.value.value, int) and x.value.value > 0:
@@ -193,11 +210,65 @@ class _Progress:
         return False
 
     def _saved_locals(self, m: Func) -> Set[str]:
-        """Locals that hold a copy of a cursor taken by this function (saved_pos = self.lexer.pos)."""
-        return {t.id for x in m.own_nodes() if isinstance(x, ast.Assign) and norm(x.value) in self.cursors for t in x.targets if isinstance(t, ast.Name)}
+        """Locals that hold a copy of a cursor taken by this function (saved_pos = self.lexer.pos; also a tuple
+        of such copies, and the result of a method that returns one)."""
+        out = set()
+        for x in m.own_nodes():
+            if not (isinstance(x, ast.Assign) and len(x.targets) == 1 and isinstance(x.targets[0], ast.Name)):
+                continue
+            v = x.value
+            parts = list(v.elts) if isinstance(v, ast.Tuple) else [v]
+            if any(self._cn(p, m) in self.cursors for p in parts):
+                out.add(x.targets[0].id)
+            nm = self._self_method(v)
+            if nm and nm in self._savers():
+                out.add(x.targets[0].id)
+        return out
+
+    def _savers(self) -> Set[str]:
+        """Methods that only return a copy of the cursor (`_mark`)."""
+        cache = self.__dict__.get("_savers_cache")
+        if cache is None:
+            cache = set()
+            for name, g in self.methods.items():
+                if isinstance(g.node, ast.Lambda):
+                    continue
+                rets = [r.value for r in g.own_nodes() if isinstance(r, ast.Return) and r.value is not None]
+                if rets and all(any(self._cn(p, g) in self.cursors for p in (list(r.elts) if isinstance(r, ast.Tuple) else [r])) for r in rets) and not any(self._flat_targets(x) and any(self._cn(t, g) in self.cursors for t in self._flat_targets(x)) for x in g.own_nodes()):
+                    cache.add(name)
+            self.__dict__["_savers_cache"] = cache
+        return cache
+
+    def _restorers(self) -> Set[str]:
+        """Methods whose cursor writes all put back a value handed in by the caller (`_reset(mark)`), and
+        generator context managers that put the cursor back after their yield (`with self._lookahead():`)."""
+        cache = self.__dict__.get("_restorers_cache")
+        if cache is None:
+            cache = set()
+            self.__dict__["_restorers_cache"] = cache
+            for name, g in self.methods.items():
+                if isinstance(g.node, ast.Lambda) or name == "__init__":
+                    continue
+                ws = [x for x in g.own_nodes() if self._cursor_write(x, g)]
+                if not ws or not all(self._restore(x, g) for x in ws):
+                    continue
+                params = set(g.params()) - {"self"}
+                from_param = all(isinstance(x.value, ast.Name) and x.value.id in params for x in ws)
+                is_manager = any(norm(d).split(".")[-1] == "contextmanager" for d in g.node.decorator_list)
+                if from_param or is_manager:
+                    cache.add(name)
+        return cache
 
     def _restore(self, x: ast.AST, m: Func) -> bool:
-        return isinstance(x, ast.Assign) and all(norm(t) in self.cursors for t in x.targets) and isinstance(x.value, ast.Name) and x.value.id in self._saved_locals(m)
+        """A cursor write whose value is a copy saved in this function, or (in a restore helper) its own parameter."""
+        if not isinstance(x, ast.Assign):
+            return False
+        tg = self._flat_targets(x)
+        if not tg or not any(self._cn(t, m) in self.cursors for t in tg):
+            return False
+        if isinstance(x.value, ast.Name):
+            return x.value.id in self._saved_locals(m) or x.value.id in (set(m.params()) - {"self"})
+        return False
 
     def _jump(self, x: ast.AST, m: Func) -> Optional[str]:
         """`self.pos = E` that is neither a reset of the entry point nor a restore of a saved cursor:
@@ -220,7 +291,7 @@ class _Progress:
 
     def _has_unbalanced_rollback(self, m: Func) -> bool:
         for x in m.own_nodes():
-            if self._cursor_write(x) and not self._forward_step(x) and not self._restore(x, m):
+            if self._cursor_write(x, m) and not self._forward_step(x) and not self._restore(x, m):
                 if m.name == "parse" and isinstance(x, ast.Assign) and isinstance(x.value, ast.Constant):
                     continue  # the entry point resets the cursor before it starts
                 if self._jump(x, m) is not None:
@@ -255,7 +326,7 @@ class _Progress:
             self._allcalls.add((name, st.ne))
         if name in self.opaque:
             self.touched_opaque = True
-        if name in self.may_rollback:
+        if name in self.may_rollback or name in self._restorers():
             return _RESET
         if name in self.consumers or (name in self.consumers_ne and st.ne):
             return _consumed(st)
@@ -699,9 +770,19 @@ class _Progress:
                 outs = res
             return outs
         if isinstance(s, ast.With):
+            rewinds = False
             for it in s.items:
-                st = self.expr(it.context_expr, st, sink)
-            return self.block(s.body, [st], sink)
+                nm = self._self_method(it.context_expr)
+                if nm and nm in self._restorers():
+                    rewinds = True  # a look-ahead manager: whatever the body consumes is put back on leaving it
+                    if sink is not None and not st.c:
+                        sink.add((nm, st.ne))
+                else:
+                    st = self.expr(it.context_expr, st, sink)
+            outs = self.block(s.body, [st], sink)
+            if rewinds:
+                outs = {(k, _RESET, i) for k, _, i in outs}
+            return outs
         if isinstance(s, (ast.FunctionDef, ast.ClassDef, ast.Pass, ast.Import, ast.ImportFrom, ast.Global, ast.Nonlocal)):
             return {(FALL, st, "")}
         # simple statements: Expr, Assign, AugAssign, AnnAssign, Assert, Delete
